@@ -9,6 +9,8 @@ CLAIMED = {
  "C06": ("all C01/C02 layouts: summary and counts read back from the real files judged by TLC against the per-base statistics (BigWigSpec!SummaryOKW, BigBedSpec!SummaryOKB)", "TLC model checking + replay + TLC observation validation", "4 C06"),
  "C07": ("TLC checks the zoom tiling mechanism against ZoomFaithful on all layouts, replays them (also under affine embeddings) and judges the real zoom records and zoom queries with the same predicate", "TLC model checking + replay + TLC observation validation", "4 C07"),
  "C08": ("as C07 for coverage depth (BigBedSpec!ZoomsOKB)", "TLC model checking + replay + TLC observation validation", "4 C08"),
+ "C03": ("all layouts x ALL ranges judged by IntervalOK/ValuesOK; Reader.tla (cache maps with capacity reset, lazily cached index offset, reopen) model-checked for HistoryIndependent over every bounded history, each history replayed on one real reader instance and every answer judged by TLC", "TLC model checking of histories + replay + TLC observation validation", "4 C03"),
+ "C05": ("RTree.tla: construction, byte layout and DFS search checked exhaustively for n <= N blocks and fan-out b <= B (pointer exactness, containment, Search = LinearScan); every shape written by the real writer, main and zoom index decoded by the independent codec and the decoded image validated by TLC; all range queries through the real index judged by TLC", "TLC model checking + replay + TLC validation of decoded images", "4 C05"),
  "C12": ("TLC explores every interleaving of TempFileBuffer.tla (safety + liveness under weak fairness), emits every schedule, the real buffer is driven through each and the recorded events are trace-validated by TLC; threaded runs are validated with a linearisation trace spec", "TLC model checking + schedule replay + TLC trace validation (incl. linearisation)", "4 C12"),
  "C13": ("TLC enumerates every small stream (valid, degenerate, invalid); the real writers consume each through iterator/file/parallel sources; TLC judges the outcome with Refusal!RefusalOK", "TLC enumeration + replay + TLC observation validation", "4 C13"),
 }
